@@ -34,17 +34,19 @@ def j2get (m : List (Nat × Nat)) (j : Nat) : Nat :=
   | some p => p.2
   | none => 0
 
+/-- one cell of the DP row `i`: `j` with `b[j] = a[i]`, `blo ≤ j < bhi` -/
+def flmStep (a b : List Line) (i blo bhi : Nat) (j2len : List (Nat × Nat))
+    (acc : List (Nat × Nat) × Match) (j : Nat) : List (Nat × Nat) × Match :=
+  if b.getD j [] == a.getD i [] && blo ≤ j && j < bhi then
+    -- Go reads `j2len[j-1]`; for j = 0 that is the absent key -1, i.e. 0
+    let k := (if j = 0 then 0 else j2get j2len (j - 1)) + 1
+    if k > acc.2.size then (acc.1 ++ [(j, k)], ⟨i + 1 - k, j + 1 - k, k⟩) else (acc.1 ++ [(j, k)], acc.2)
+  else acc
+
 /-- one row of the DP: all `j` with `b[j] = a[i]`, `blo ≤ j < bhi`, ascending -/
 def flmRow (a b : List Line) (i blo bhi : Nat) (j2len : List (Nat × Nat)) (best : Match) :
     List (Nat × Nat) × Match :=
-  let ai := a.getD i []
-  (List.range b.length).foldl (fun (acc : List (Nat × Nat) × Match) j =>
-    if b.getD j [] == ai && blo ≤ j && j < bhi then
-      -- Go reads `j2len[j-1]`; for j = 0 that is the absent key -1, i.e. 0
-      let k := (if j = 0 then 0 else j2get j2len (j - 1)) + 1
-      let new := acc.1 ++ [(j, k)]
-      if k > acc.2.size then (new, ⟨i + 1 - k, j + 1 - k, k⟩) else (new, acc.2)
-    else acc) ([], best)
+  (List.range b.length).foldl (flmStep a b i blo bhi j2len) ([], best)
 
 def flmRows (a b : List Line) (blo bhi : Nat) : List Nat → List (Nat × Nat) → Match → Match
   | [], _, best => best
@@ -83,12 +85,14 @@ def matchBlocks (a b : List Line) : Nat → Nat → Nat → Nat → Nat → List
       if m.a + m.size < ahi && m.b + m.size < bhi then matchBlocks a b fuel (m.a + m.size) ahi (m.b + m.size) bhi acc2 else acc2
     else acc
 
+def collapseStep (acc : List Match × Match) (m : Match) : List Match × Match :=
+  let cur := acc.2
+  if cur.a + cur.size == m.a && cur.b + cur.size == m.b then (acc.1, { cur with size := cur.size + m.size })
+  else ((if cur.size > 0 then acc.1 ++ [cur] else acc.1), m)
+
 /-- collapse adjacent blocks, append the sentinel -/
 def collapse (la lb : Nat) (ms : List Match) : List Match :=
-  let r := ms.foldl (fun (acc : List Match × Match) m =>
-    let cur := acc.2
-    if cur.a + cur.size == m.a && cur.b + cur.size == m.b then (acc.1, { cur with size := cur.size + m.size })
-    else ((if cur.size > 0 then acc.1 ++ [cur] else acc.1), m)) ([], ⟨0, 0, 0⟩)
+  let r := ms.foldl collapseStep ([], ⟨0, 0, 0⟩)
   (if r.2.size > 0 then r.1 ++ [r.2] else r.1) ++ [⟨la, lb, 0⟩]
 
 def matchingBlocks (a b : List Line) : List Match :=
@@ -102,19 +106,21 @@ structure OpCode where
   j2 : Nat
 deriving DecidableEq, Repr
 
+/-- the opcode for the gap between the cursor `(i, j)` and the next block -/
+def opGap (i j : Nat) (m : Match) : List OpCode :=
+  if i < m.a && j < m.b then [⟨'r', i, m.a, j, m.b⟩]
+  else if i < m.a then [⟨'d', i, m.a, j, m.b⟩]
+  else if j < m.b then [⟨'i', i, m.a, j, m.b⟩]
+  else []
+
+def opEq (m : Match) : List OpCode :=
+  if m.size > 0 then [⟨'e', m.a, m.a + m.size, m.b, m.b + m.size⟩] else []
+
+def opStep (acc : List OpCode × Nat × Nat) (m : Match) : List OpCode × Nat × Nat :=
+  (acc.1 ++ opGap acc.2.1 acc.2.2 m ++ opEq m, m.a + m.size, m.b + m.size)
+
 /-- `GetOpCodes` from a list of matching blocks -/
-def opCodesOf (ms : List Match) : List OpCode :=
-  (ms.foldl (fun (acc : List OpCode × Nat × Nat) m =>
-    let (ops, i, j) := acc
-    let ops1 :=
-      if i < m.a && j < m.b then ops ++ [⟨'r', i, m.a, j, m.b⟩]
-      else if i < m.a then ops ++ [⟨'d', i, m.a, j, m.b⟩]
-      else if j < m.b then ops ++ [⟨'i', i, m.a, j, m.b⟩]
-      else ops
-    let i' := m.a + m.size
-    let j' := m.b + m.size
-    let ops2 := if m.size > 0 then ops1 ++ [⟨'e', m.a, i', m.b, j'⟩] else ops1
-    (ops2, i', j')) ([], 0, 0)).1
+def opCodesOf (ms : List Match) : List OpCode := (ms.foldl opStep ([], 0, 0)).1
 
 def getOpCodes (a b : List Line) : List OpCode := opCodesOf (matchingBlocks a b)
 
